@@ -617,6 +617,33 @@ def tagsOf (c : List Piece) : List Nat :=
     `none` = "invalid image index" -/
 def resolveTag (imgs : List ImgOut) (n : Nat) : Option ImgOut := imgs.find? (fun o => o.id = n)
 
+/-! the runner's view of the prompt BYTES: `regexp.MustCompile(`\[img-(\d+)\]`)`,
+    leftmost non-overlapping matches, the number read by `strconv.Atoi` -/
+
+def isDigit (b : UInt8) : Bool := 48 ≤ b && b ≤ 57
+
+def digitsVal (ds : Bytes) : Nat := ds.foldl (fun acc d => 10 * acc + (d.toNat - 48)) 0
+
+/-- a match of the regexp at the start of `s`: (number, length of the match) -/
+def matchTag (s : Bytes) : Option (Nat × Nat) :=
+  if bImgDash.isPrefixOf s then
+    let rest := s.drop 5
+    let ds := rest.takeWhile isDigit
+    if ds.isEmpty then none
+    else match rest.drop ds.length with
+      | 93 :: _ => some (digitsVal ds, 5 + ds.length + 1)
+      | _ => none
+  else none
+
+/-- all matches, left to right; `skip` = bytes of the current match still to be skipped -/
+def scanTags : Bytes → Nat → List Nat
+  | [], _ => []
+  | _ :: bs, skip+1 => scanTags bs skip
+  | b :: bs, 0 =>
+    match matchTag (b :: bs) with
+    | some (n, len) => n :: scanTags bs (len - 1)
+    | none => scanTags bs 0
+
 def resolveTags (imgs : List ImgOut) : List Nat → Option (List ImgOut)
   | [] => some []
   | k :: ks =>
